@@ -773,6 +773,9 @@ func (fox *Router) parseRoute(url string) (uint32, int, error) {
 				if i < endHost {
 					return 0, -1, fmt.Errorf("%w: catch-all wildcard not supported in hostname", ErrInvalidRoute)
 				}
+				if i+1 < len(url) && url[i+1] != '{' {
+					return 0, -1, fmt.Errorf("%w: illegal character '%s' after '*' catch-all delimiter", ErrInvalidRoute, string(url[i+1]))
+				}
 				state = stateCatchAll
 				i++
 				startParam = i
